@@ -13,9 +13,10 @@
 
    Documented deviations from Go:
    * parse_float returns PFSyntax for the spellings "inf", "infinity", "nan" (any case, any
-     sign), for hexadecimal floats ("0x1p-2") and for digit-separating underscores (which Go
-     itself only accepts with base prefix 0x).  jsonata-go never passes those: the lexer only
-     produces decimal literals and $number() pre-filters with a regexp.
+     sign), for hexadecimal floats ("0x1p-2") and for digit-separating underscores (Go 1.23
+     accepts "1_0" = 10 and "1_0e1_0").  jsonata-go never passes those: the lexer only
+     produces plain decimal literals and $number() pre-filters with the regexp
+     ^-?(([0-9]+))(\.[0-9]+)?([Ee][-+]?[0-9]+)?$ .
    * parse_float is mathematically exact for every exponent; Go saturates the *written*
      exponent at about 10^4..10^5 ("if e < 10000 { e = e*10 + digit }"), which can only be
      observed with more than 10000 digits in the literal.
@@ -99,6 +100,7 @@ Fixpoint pow5_pos (p : positive) : Z :=
   | xI p' => let r := pow5_pos p' in 5 * (r * r)
   end.
 Definition pow5 (n : Z) : Z := match n with Zpos p => pow5_pos p | _ => 1 end.
+Definition pow10 (n : Z) : Z := Z.shiftl (pow5 n) (Z.max n 0).
 
 (* the binary64 nearest (ties to even) to  (-1)^neg * M * 10^k,  M >= 0 *)
 Definition dec_to_f64 (neg : bool) (M k : Z) : pf_result :=
@@ -106,8 +108,8 @@ Definition dec_to_f64 (neg : bool) (M k : Z) : pf_result :=
   else if 0 <=? k then
     if 310 <? k then PFRange (S754_infinity neg)            (* M >= 1: value >= 10^311 *)
     else
-      let V := M * pow5 k in                                  (* M * 10^k = V * 2^k *)
-      wrap_pf (binary_normalize prec emax (if neg then - V else V) k neg)
+      let V := M * pow10 k in
+      wrap_pf (binary_normalize prec emax (if neg then - V else V) 0 neg)
   else
     let kk := - k in
     let lm := Z.log2 M in
